@@ -190,7 +190,12 @@ def make_scenario(seed, i):
             for idx, k in enumerate(chosen):
                 sc["swap"].append({"name": k[0], "arity": k[1], "rows": [list(r) for r in fp[k]],
                                    "style": rng.choice(["inferred", "explicit", "variadic", "inferred-decorated", "inferred-method", "inferred-default", "partial", "callable-object"]),
-                                   "yields": rng.choice(["true", "false", "mixed", "none"])})
+                                   "yields": rng.choice(["true", "false", "mixed", "none"]),
+                                   # the function's constants are atoms of ANOTHER engine (module-level constants made before a
+                                   # clear(), Atom objects of a helper engine): atoms are equal by name, whoever made them
+                                   "atoms": rng.choice(["own", "own", "foreign"]),
+                                   # the same function object also serves a second predicate name
+                                   "alias": rng.random() < 0.3})
                 if idx < 2:
                     rules, qs = _contexts(rng, k, fp[k], idx)
                     ctx_rules += rules
@@ -219,7 +224,10 @@ def make_scenario(seed, i):
 
 
 # ---------------------------------------------------------------------- natives
-def make_native(real, rows, arity, style, yields, counter=None):
+_FOREIGN = []
+
+
+def make_native(real, rows, arity, style, yields, counter=None, atoms="own"):
     """a python GENERATOR FUNCTION equivalent to the facts `rows` of name/arity: for every row (fresh variables per
     use) it unifies its arguments one by one in nested for-loops and yields once per solution.
     style inferred/explicit -> exactly `arity` positional parameters; variadic -> *args."""
@@ -230,9 +238,14 @@ def make_native(real, rows, arity, style, yields, counter=None):
         if counter is not None:
             counter[0] += 1
         out = []
+        src = real
+        if atoms == "foreign":
+            if not _FOREIGN:
+                _FOREIGN.append(RealEngine())
+            src = _FOREIGN[0]
         for row in rows:
             vm = {}
-            out.append([real.to_engine(t, vm) for t in row])
+            out.append([src.to_engine(t, vm) for t in row])
         return out
 
     def nextval():
@@ -391,8 +404,10 @@ def run_swap(sc, out):
         stripped = gen.strip_predicates(program, keys)
         if sc.get("register_first"):
             for s in swap:
-                register(swp, s["name"], make_native(swp, [tup(r) for r in s["rows"]], s["arity"], s["style"], s["yields"], entered),
-                         s["arity"], s["style"])
+                f = make_native(swp, [tup(r) for r in s["rows"]], s["arity"], s["style"], s["yields"], entered, s.get("atoms", "own"))
+                register(swp, s["name"], f, s["arity"], s["style"])
+                if s.get("alias") and s["style"] in ("explicit", "variadic", "inferred"):
+                    swp.yp.register_function("zz_alias_" + s["name"], f, {"explicit": s["arity"], "variadic": -1}.get(s["style"]))
         common.timed(load, swp, stripped if stripped else [((atom("zz__none")), TRUE)])
     except Exception as e:
         out["extra"]["consult_failed"] = out["extra"].get("consult_failed", 0) + 1
@@ -400,8 +415,10 @@ def run_swap(sc, out):
         out["fails"].append("consult raised %s: %s" % (type(e).__name__, str(e)[:200]))
         return
     for s in ([] if sc.get("register_first") else swap):
-        f = make_native(swp, [tup(r) for r in s["rows"]], s["arity"], s["style"], s["yields"], entered)
+        f = make_native(swp, [tup(r) for r in s["rows"]], s["arity"], s["style"], s["yields"], entered, s.get("atoms", "own"))
         register(swp, s["name"], f, s["arity"], s["style"])
+        if s.get("alias") and s["style"] in ("explicit", "variadic", "inferred"):
+            swp.yp.register_function("zz_alias_" + s["name"], f, {"explicit": s["arity"], "variadic": -1}.get(s["style"]))
     desc = "; ".join("%s/%d as %s native yielding %s" % (s["name"], s["arity"], s["style"], s["yields"]) for s in swap)
     pkey = common.digest([sc["program"], sc["more"], sc["contexts"], swap])
 
